@@ -709,7 +709,7 @@ pub fn scen_iter(ctx: &Ctx) -> i32 {
                     ops.push(Op::Del(B::Hex(k.clone())));
                 }
             }
-            ops.push(Op::Iter(r.below(6) as u8));
+            ops.push(Op::Iter(r.below(7) as u8));
             ops.push(Op::Iter(0));
             for (j, k) in keys.iter().enumerate() {
                 if j % 2 == 1 {
@@ -860,7 +860,7 @@ pub fn scen_multi(ctx: &Ctx) -> i32 {
                 8 | 9 => Op::Del(k),
                 10 => Op::Len,
                 11 => Op::Rehandle(r.below(3) as u8),
-                12 => Op::Iter(r.below(6) as u8),
+                12 => Op::Iter(r.below(7) as u8),
                 _ => Op::Inc(k),
             });
         }
@@ -1064,7 +1064,7 @@ pub fn scen_determ(ctx: &Ctx) -> i32 {
                     ops.push(match r.below(6) {
                         0 => Op::Get(gen_key(&mut r, kt, 0)),
                         1 => Op::Len,
-                        2 => Op::Iter(r.below(6) as u8),
+                        2 => Op::Iter(r.below(7) as u8),
                         3 => Op::Stats,
                         4 => Op::Inc(gen_key(&mut r, kt, 0)),
                         _ => Op::ReadFill,
